@@ -76,6 +76,8 @@ type Case struct {
 	Lead    int     `json:"lead,omitempty"` // number of SPSSODescriptors without POST ACS and without keys placed before the one that holds the ACS and the keys
 	Session Session `json:"session,omitempty"`
 	Method  string  `json:"method,omitempty"` // POST | GET | initiated
+	// Validity: validUntil / cacheDuration statements of the registered metadata (see validities); idp and rekey kinds
+	Validity string `json:"validity,omitempty"`
 
 	// rekey: a sequence of responses served by ONE IdentityProvider value while the registration of
 	// the same entity ID changes its key descriptors in between (Seq: one KD list per response)
@@ -122,6 +124,12 @@ func certText(k KD) (string, bool) {
 	return "", false // none
 }
 
+// validity: what the registered metadata says about its own validity ("" = nothing).  A registration that has
+// lapsed may be refused; it is no reason to send the user's data in clear.
+var validities = []string{"", "role-past", "role-future", "entity-past", "entity-future", "both-past", "cache-1s"}
+
+var curValidity string // set by check() for the case being judged (cases are judged one at a time)
+
 func metadata(kds []KD, lead ...int) *saml.EntityDescriptor {
 	var leading []saml.SPSSODescriptor
 	if len(lead) > 0 {
@@ -148,7 +156,24 @@ func metadata(kds []KD, lead ...int) *saml.EntityDescriptor {
 		}
 		d.KeyDescriptors = append(d.KeyDescriptors, kd)
 	}
+	past, future := fix.Epoch.Add(-72*time.Hour), fix.Epoch.Add(72*time.Hour)
+	switch curValidity {
+	case "role-past", "both-past":
+		d.ValidUntil = &past
+	case "role-future":
+		d.ValidUntil = &future
+	case "cache-1s":
+		d.CacheDuration = time.Second
+	}
 	md := &saml.EntityDescriptor{EntityID: spkit.SPEntity, SPSSODescriptors: append(leading, d)}
+	switch curValidity {
+	case "entity-past", "both-past":
+		md.ValidUntil = past
+	case "entity-future":
+		md.ValidUntil = future
+	case "cache-1s":
+		md.CacheDuration = time.Second
+	}
 	// the IdP sees what an XML round trip leaves of it, as a real registration would
 	buf, err := xml.Marshal(md)
 	if err != nil {
@@ -817,6 +842,23 @@ func (s *stream) Read(p []byte) (int, error) {
 }
 
 func check(c Case) pbt.Result {
+	curValidity = ""
+	for _, v := range validities {
+		if v == c.Validity {
+			curValidity = v
+		}
+	}
+	res := check1(c)
+	if curValidity != "" && !res.Skip {
+		res.Classes = append(res.Classes, "metadata-validity:"+curValidity)
+		if c.Kind == "idp" {
+			res.NonTrivial = true
+		}
+	}
+	return res
+}
+
+func check1(c Case) pbt.Result {
 	switch c.Kind {
 	case "pad":
 		return checkPad(c)
@@ -888,6 +930,9 @@ func gen(t *rapid.T) Case {
 	case 0, 1, 2, 3:
 		n := rapid.IntRange(0, 4).Draw(t, "nkd")
 		c := Case{Kind: "idp", Session: sanitize(genSession(t)), Method: rapid.SampledFrom([]string{"POST", "GET", "initiated"}).Draw(t, "method"), Lead: rapid.SampledFrom([]int{0, 0, 1, 2}).Draw(t, "lead")}
+		if rapid.IntRange(0, 3).Draw(t, "validity?") == 0 {
+			c.Validity = rapid.SampledFrom(validities[1:]).Draw(t, "validity")
+		}
 		for i := 0; i < n; i++ {
 			c.KDs = append(c.KDs, KD{Use: rapid.SampledFrom([]string{"encryption", "encryption", "", "signing"}).Draw(t, "use"), Cert: rapid.SampledFrom(certClasses).Draw(t, "cert"), Methods: genMethods(t)})
 		}
@@ -932,6 +977,18 @@ func enumLayouts(tier string, emit func(Case)) {
 				for _, c := range all {
 					emit(Case{Kind: "idp", Session: s, Method: "GET", KDs: []KD{a, b, c}})
 				}
+			}
+		}
+	}
+}
+
+// enumValidity: every validity statement x key layout {labelled key, unlabelled key, signing + unlabelled} x flow.
+func enumValidity(_ string, emit func(Case)) {
+	s := Session{NameID: "mnameid0123456789", Email: "memail0123456789@example.com", Name: "mname0123456789", Index: "idx0123456789", Custom: "mcustom0123456789", Groups: []string{"mgroup0123456789"}}
+	for _, v := range validities[1:] {
+		for _, kds := range [][]KD{{{Use: "encryption", Cert: "rsa"}}, {{Use: "", Cert: "rsa"}}, {{Use: "signing", Cert: "rsa"}, {Use: "", Cert: "rsa2"}}, {}} {
+			for _, m := range []string{"POST", "GET", "initiated"} {
+				emit(Case{Kind: "idp", Session: s, Method: m, KDs: kds, Validity: v})
 			}
 		}
 	}
@@ -1030,7 +1087,7 @@ func enumSP(_ string, emit func(Case)) {
 
 var prop = &pbt.Prop[Case]{
 	ID: "C08",
-	Rule: "cases: (idp) sessions whose strings carry unique alphanumeric markers x registered SP metadata whose KeyDescriptor list is any sequence over use in {encryption, omitted, signing} x certificate in {valid RSA, second valid RSA, valid EC, empty, white space, not base64, base64 of garbage, no X509Certificate element} x optional EncryptionMethod lists beside the key (block ciphers, key transports, unknown and blank algorithms) through ServeSSO (POST, GET) and ServeIDPInitiated " +
+	Rule: "cases: (idp) sessions whose strings carry unique alphanumeric markers x registered SP metadata whose KeyDescriptor list is any sequence over use in {encryption, omitted, signing} x certificate in {valid RSA, second valid RSA, valid EC, empty, white space, not base64, base64 of garbage, no X509Certificate element} x optional EncryptionMethod lists beside the key (block ciphers, key transports, unknown and blank algorithms) x validUntil / cacheDuration statements of the registered metadata (lapsed or not, on the role descriptor or the entity) through ServeSSO (POST, GET) and ServeIDPInitiated " +
 		"(all sequences of length <= 2 enumerated, <= 3 in thorough); (fresh) sequences of 8-12 responses with the default random source (pairwise distinct content keys and IVs) and with a recording xmlenc.RandReader fed generated bytes (key and IV are values drawn for that response, >= 32 bytes consumed); " +
 		"(spmeta) one assertion with a chosen defect presented in clear and encrypted to the SP: the verdicts must agree and match the defect; (tamper) ciphertext encrypted to another key, assertions encrypted by a party without the IdP key, flipped / truncated / reordered cipher values. " +
 		"oracle: advertises = some descriptor usable for encryption has non-blank certificate text => reply is an error status or a form with exactly one EncryptedAssertion, no clear Assertion and no session marker anywhere in the HTML or decoded XML; with a valid RSA certificate first the reply must succeed, an independent stdlib decryptor with the SP key recovers a signed assertion carrying all markers and no other private key does. " +
@@ -1038,7 +1095,7 @@ var prop = &pbt.Prop[Case]{
 	Gen:   gen,
 	Check: check,
 	Reset: fix.Reset,
-	Enums: []pbt.Enum[Case]{{Name: "key-descriptor-layouts", Each: enumLayouts}, {Name: "sp-defects-and-tampering", Each: enumSP}, {Name: "re-registration-sequences", Each: enumRekey}, {Name: "cbc-padding-through-the-sp", Each: enumPad}, {Name: "encryption-method-lists", Each: enumMethods}},
+	Enums: []pbt.Enum[Case]{{Name: "key-descriptor-layouts", Each: enumLayouts}, {Name: "sp-defects-and-tampering", Each: enumSP}, {Name: "re-registration-sequences", Each: enumRekey}, {Name: "cbc-padding-through-the-sp", Each: enumPad}, {Name: "encryption-method-lists", Each: enumMethods}, {Name: "metadata-validity-statements", Each: enumValidity}},
 	Assumptions: []string{
 		"CR is kept out of session strings (separate finding of C07)",
 		"RSA-OAEP randomness drawn from the recording source may include extra bytes (Go's MaybeReadByte); membership of key and IV among the recorded reads is what is checked",
